@@ -13,6 +13,7 @@ import (
 	"errors"
 	"fmt"
 	"io"
+	"os"
 	"regexp"
 	"strconv"
 	"strings"
@@ -27,6 +28,9 @@ func pgErr(code, msg, constraint string) *pgconn.PgError {
 }
 
 var errConnLost = errors.New("simpg: connection lost (injected)")
+
+// sqlTrace (VERIF_SQLTRACE=1): print every interpreted statement to stderr (debugging aid, never part of the event log)
+var sqlTrace = os.Getenv("VERIF_SQLTRACE") != ""
 
 type Connector struct {
 	w     *World
@@ -326,9 +330,16 @@ func (c *conn) driverYield(ctx context.Context, op, note string, kinds []FaultKi
 func (c *conn) sqlStatement(ctx context.Context, query string) (*sqlResult, error) {
 	stmt, err := parseSQL(query)
 	if err != nil {
-		return nil, c.w.unsupportedSQL(err, query)
+		return nil, c.w.unsupportedSQL(ctx, err, query)
 	}
 	verb, table := describeStmt(stmt)
+	if sqlTrace {
+		q := normSQL(query)
+		if len(q) > 400 {
+			q = q[:400]
+		}
+		fmt.Fprintf(os.Stderr, "SQLTRACE %s: %s\n", taskKeyOf(ctx), q)
+	}
 	kinds := stmtKinds
 	if stmtTakesLocks(stmt) {
 		kinds = lockStmtKinds
@@ -347,7 +358,7 @@ func (c *conn) sqlStatement(ctx context.Context, query string) (*sqlResult, erro
 	if err != nil {
 		var ue *errUnsupportedSQL
 		if errors.As(err, &ue) {
-			return nil, c.w.unsupportedSQL(err, query)
+			return nil, c.w.unsupportedSQL(ctx, err, query)
 		}
 		return nil, err
 	}
@@ -357,7 +368,11 @@ func (c *conn) sqlStatement(ctx context.Context, query string) (*sqlResult, erro
 // unsupportedSQL: the statement is outside what the interpreter models. The run is reported as
 // inconclusive (never as a violation, never as infrastructure trouble); the statement itself fails like a
 // feature the server does not support.
-func (w *World) unsupportedSQL(err error, query string) error {
+func (w *World) unsupportedSQL(ctx context.Context, err error, query string) error {
+	if ctx.Value(softSQLKey) != nil {
+		// a read that has a model-served fallback: nothing is marked
+		return pgErr("0A000", err.Error(), "")
+	}
 	w.mu.Lock()
 	if w.sqlUnsupported == "" {
 		q := normSQL(query)
